@@ -16,7 +16,10 @@ Never imports spsdk.  Two ways of reading, both independent of HOW the source sp
         version, the accept / refuse table of create_from_yaml_config, what the EdgeLock v2 wrapper does with the permission data.
     Control flow, helper methods, constant hoisting, struct spellings ("2H" / "HH", "L" / "I"), dict order, annotations, comments,
     messages and method order cannot change what is generated; behaviour can.
-  * **statically** (`ast` + consteval): the AHAB certificate facts (argument order of its `pack`, unpack targets) and the device
+      - (phase 3) the AHAB certificate behind the EdgeLock v2 credential (`probe_cert`: ahab_abstract_interfaces.py + ahab_certificate.py
+        in the sandbox; field tables of get_signature_data() / export() / parse(export()), inverted-permission check) and the payload of
+        the EdgeLock v2 response (`probe_dat_msg`: MessageDat of signed_msg.py).
+  * **statically** (consteval / YAML): class constants of the certificate (sizes, PERM_OEM) and the device
     database (replica of Device.load/_load_alias; cross-checked against the live database by harness/props/C15.py on every run).
 
 A probe that raises becomes an `.unknown` / empty stand-in (a broken obligation), never a crash of the generator.
@@ -1156,6 +1159,7 @@ def probe_cert(sb):
     ns = sb.load(CERT, extra2)
     C = ns["AhabCertificate"]
     probes = []
+    inv_checked = []
     for k in range(2):
         perm, fuse = 0x2B + 0x11 * k, 0x5C + 7 * k
         pd, uu = distinct(C.PERMISSION_DATA_SIZE, 90 + k), distinct(C.UUID_SIZE, 92 + k)
@@ -1195,6 +1199,7 @@ def probe_cert(sb):
             ff = fmt_fields(fmt)
             if ff and buf == data[:fixed] and off == 0 and len(ff) == len(vals) and len(ff) > 3:
                 row = []
+                ff_fixed = ff
                 for (code, n), v in zip(ff, vals):
                     fc = f"{n}s" if code == "s" else code
                     names = [nm for nm in got if nm in want and ((bytes(v) == bytes(want[nm]) and bytes(got[nm]) == bytes(v)) if isinstance(v, (bytes, bytearray))
@@ -1202,6 +1207,19 @@ def probe_cert(sb):
                     row.append((fc, names))
         if row is None:
             raise ValueError("no unpack of the fixed part seen")
+        # the inverted-permissions byte is checked: a credential whose byte is off by one bit is refused, the untouched one is not
+        ipos = sum(n for (_c, n) in ff_fixed[:[i for i, (_fc, nm) in enumerate(res["export"]) if "~permissions" in nm][0]]) if any(
+            "~permissions" in nm for _fc, nm in res["export"]) else None
+        if ipos is not None:
+            bad = bytearray(data)
+            bad[ipos] ^= 0x10
+            try:
+                C.parse(bytes(bad))
+                inv_checked.append(False)
+            except SPSDKError:
+                inv_checked.append(True)
+        else:
+            inv_checked.append(False)
         tail = []
         if p.public_key_0 == rec: tail.append(("raw", ["key0.record"]))
         if p.public_key_0.srk_data == dat: tail.append(("raw", ["key0.data"]))
@@ -1218,7 +1236,86 @@ def probe_cert(sb):
             common = set.intersection(*[set(r[i][1]) for r in rows])
             fin.append((fc, common.pop() if len(common) == 1 else ("_" if meth == "parse" and not common else "?")))
         out[meth] = fin
+    out["inv_checked"] = bool(inv_checked) and all(inv_checked)
     return out
+
+
+def probe_dat_msg(sb):
+    """MessageDat (payload of the EdgeLock v2 response) by value: export_payload() / parse_payload() field tables, payload length"""
+    denv = ModuleEnv(parse("spsdk/image/ahab/ahab_data.py"))
+    consts = {k: denv.value(k) for k in ("LITTLE_ENDIAN", "UINT8", "UINT16", "UINT32", "UINT64", "RESERVED")}
+
+    class BaseClass:
+        pass
+
+    class _EM(type):
+        def __new__(m, name, bases, d):
+            for k, v in list(d.items()):
+                if isinstance(v, tuple) and v and isinstance(v[0], int) and not k.startswith("_"):
+                    d[k] = types.SimpleNamespace(tag=v[0], label=v[1] if len(v) > 1 else k)
+            return super().__new__(m, name, bases, d)
+
+    class SpsdkEnum(metaclass=_EM):
+        @classmethod
+        def from_label(cls, label):
+            for v in vars(cls).values():
+                if isinstance(v, types.SimpleNamespace) and v.label == label:
+                    return v.tag
+            raise SPSDKError("label")
+
+        @classmethod
+        def get_label(cls, tag):
+            for v in vars(cls).values():
+                if isinstance(v, types.SimpleNamespace) and v.tag == tag:
+                    return v.label
+            raise SPSDKError("tag")
+
+    extra = dict(consts, BaseClass=BaseClass, SPSDKParsingError=SPSDKError, SPSDKLengthError=SPSDKError, SpsdkEnum=SpsdkEnum, SpsdkSoftEnum=SpsdkEnum,
+                 abstractmethod=(lambda f: f))
+    rel = "spsdk/image/ahab/signed_msg.py"
+    # names looked up inside class bodies do not go through the permissive namespace: pre-seed every free name with a dummy
+    for rel_ in ("spsdk/image/ahab/ahab_abstract_interfaces.py", rel):
+        for n in ast.walk(ast.parse((REPO / rel_).read_text(encoding="utf-8"))):
+            if isinstance(n, ast.Name) and n.id not in extra and n.id not in sb.stubs and not hasattr(builtins, n.id):
+                extra[n.id] = Dummy(n.id)
+    ai = sb.load("spsdk/image/ahab/ahab_abstract_interfaces.py", extra)
+    extra = dict(extra, Container=ai["Container"], HeaderContainer=ai["HeaderContainer"], HeaderContainerData=ai["HeaderContainerData"])
+    M = sb.load(rel, extra)["MessageDat"]
+    exp_rows, par_rows, lens = [], [], []
+    for k in range(2):
+        ch, bc = distinct(32, 3 + k), 0xA1B2 + 0x1111 * k
+        out = M(issue_date=0x1234, challenge_vector=ch + b"\xEE" * (8 * k), authentication_beacon=bc).export_payload()
+        lens.append(len(out))
+        pos = out.find(ch)
+        if pos < 0:
+            raise ValueError("challenge vector not found in the payload")
+        row = []
+        for seg, what in ((out[:pos], "b"), (ch, "c"), (out[pos + 32:], "b")):
+            if not seg:
+                continue
+            if what == "c":
+                row.append(("(.bytes (.fixed 32))", ".dacChallenge"))
+            elif seg == bc.to_bytes(len(seg), "little") and len(seg) in (2, 4):
+                row.append((".u16" if len(seg) == 2 else ".u32", ".authBeacon"))
+            else:
+                row.append((".unknown", ".unknown"))
+        exp_rows.append(row)
+        data = distinct(48, 11 + k)
+        m2 = M(issue_date=0x1234)
+        m2.parse_payload(data)
+        cpos = data.find(bytes(m2.challenge_vector)) if len(m2.challenge_vector) == 32 else -1
+        hits = [(w, data.find(m2.authentication_beacon.to_bytes(w, "little"))) for w in (4, 2) if m2.authentication_beacon < 256 ** w]
+        hits = [(w, p) for w, p in hits if p >= 0 and (w == 4 or m2.authentication_beacon >= 256)]
+        if cpos < 0 or not hits:
+            par_rows.append([(".unknown", ".unknown")])
+            continue
+        w, bpos = hits[0]
+        items = sorted([(cpos, 32, ("(.bytes (.fixed 32))", ".dacChallenge")), (bpos, w, (".u16" if w == 2 else ".u32", ".authBeacon"))])
+        ok = items[0][0] == 0 and items[1][0] == items[0][1]
+        par_rows.append([it[2] for it in items] if ok else [(".unknown", ".unknown")])
+    if exp_rows[0] != exp_rows[1] or par_rows[0] != par_rows[1] or lens[0] != lens[1]:
+        raise ValueError("payload layout differs between probes")
+    return {"export": exp_rows[0], "parse": par_rows[0], "len": lens[0]}
 
 
 def v2_section(sb, ns, out, meta):
@@ -1228,71 +1325,9 @@ def v2_section(sb, ns, out, meta):
     except (OSError, SyntaxError) as exc:
         ctree = None
         meta.setdefault("errors", []).append(f"{CERT}: {exc}")
-    cert = _cls(ctree, "AhabCertificate") if ctree else None
-    # arguments of the pack(...) call of get_signature_data()
-    args = []
-    fn = _fun(cert, "get_signature_data")
-    if fn is not None:
-        for n in ast.walk(fn):
-            if isinstance(n, ast.Call) and isinstance(n.func, ast.Name) and n.func.id == "pack":
-                args = [ast.unparse(a) for a in n.args[1:]]
-                break
-    out.append(f"def certPackArgs : List String := {_strs(args)}  -- AhabCertificate.get_signature_data: pack(self.format(), ...)")
-    # what follows the packed head in get_signature_data() and export()
-    def tail_parts(fname):
-        f = _fun(cert, fname)
-        parts = []
-        if f is None:
-            return parts
-        for st in f.body:
-            if isinstance(st, ast.AugAssign) and isinstance(st.op, ast.Add):
-                parts.append(ast.unparse(st.value))
-            elif isinstance(st, ast.If):
-                for st2 in st.body:
-                    if isinstance(st2, ast.AugAssign) and isinstance(st2.op, ast.Add):
-                        parts.append("if " + ast.unparse(st.test) + ": " + ast.unparse(st2.value))
-        return parts
-    out.append(f"def certSignedTail : List String := {_strs(tail_parts('get_signature_data'))}")
-    out.append(f"def certExportTail : List String := {_strs(tail_parts('export'))}")
-    # parse(): unpack targets resolved to the constructor keyword / `cert.attr = local` they feed
-    fn = _fun(cert, "parse")
-    targets = []
-    if fn is not None:
-        local_to = {}
-        for n in ast.walk(fn):
-            if isinstance(n, ast.Call) and isinstance(n.func, ast.Name) and n.func.id == "cls":
-                for kw in n.keywords:
-                    if isinstance(kw.value, ast.Name):
-                        local_to.setdefault(kw.value.id, kw.arg)
-            if isinstance(n, ast.Assign) and len(n.targets) == 1 and isinstance(n.targets[0], ast.Attribute) and isinstance(n.value, ast.Name) \
-                    and isinstance(n.targets[0].value, ast.Name) and n.targets[0].value.id == "cert":
-                local_to.setdefault(n.value.id, n.targets[0].attr)
-        for n in ast.walk(fn):
-            if isinstance(n, ast.Assign) and isinstance(n.value, ast.Call) and isinstance(n.value.func, ast.Name) and n.value.func.id == "unpack" \
-                    and isinstance(n.targets[0], ast.Tuple):
-                names = [e.id if isinstance(e, ast.Name) else "?" for e in n.targets[0].elts]
-                for nm in names:
-                    targets.append("_" if nm == "_" else local_to.get(nm, "local"))
-                break
-        else:
-            names = []
-        # the one check on a local that feeds nothing: `if <local> != ~<permissions local> & 0xFF`, locals renamed to their role
-        role = {nm: ("«" + local_to[nm] + "»" if nm in local_to else "«local»") for nm in names if nm not in ("_", "?")}
-        inv = []
-        for n in ast.walk(fn):
-            if isinstance(n, ast.If) and isinstance(n.test, ast.Compare) and any(isinstance(x, ast.Name) and role.get(x.id) == "«local»" for x in ast.walk(n.test)):
-                t = copy.deepcopy(n.test)
-                for x in ast.walk(t):
-                    if isinstance(x, ast.Name) and x.id in role:
-                        x.id = role[x.id]
-                inv.append(ast.unparse(t))
-    else:
-        inv = []
-    out.append(f"def certParseTargets : List String := {_strs(targets)}  -- AhabCertificate.parse: targets of unpack(image_format, ...) by the attribute they feed")
-    out.append(f"def certInvertedCheck : List String := {_strs(inv)}")
     # the same three sites BY VALUE (sandboxed AhabCertificate run on distinctive values): (struct code, role) per field, in byte order
     unk = [("?", "?")]
-    cv = attempt(meta, "AHAB certificate by value", lambda: probe_cert(sb), {"get_signature_data": unk, "export": unk, "parse": unk})
+    cv = attempt(meta, "AHAB certificate by value", lambda: probe_cert(sb), {"get_signature_data": unk, "export": unk, "parse": unk, "inv_checked": False})
 
     roles = {"version": ".version", "length": ".length", "tag": ".tag", "signature_offset": ".sigOffset", "~permissions": ".invPerm", "permissions": ".perm",
              "permission_data": ".permData", "fuse_version": ".fuse", "reserved": ".reserved", "uuid": ".uuid", "key0.record": ".keyRecord",
@@ -1307,6 +1342,11 @@ def v2_section(sb, ns, out, meta):
     out.append(f"def certSignFields : List (CertW × CertRole) := {_sf(cv['get_signature_data'])}  -- AhabCertificate.get_signature_data(), probed: what is written where")
     out.append(f"def certExportFields : List (CertW × CertRole) := {_sf(cv['export'])}  -- AhabCertificate.export(), probed")
     out.append(f"def certParseFields : List (CertW × CertRole) := {_sf(cv['parse'])}  -- AhabCertificate.parse(export()), probed: the attribute each position ends up in (_ = dropped / only checked)")
+    out.append(f"def certInvChecked : Bool := {_b(cv['inv_checked'])}  -- parse() refuses a certificate whose inverted-permissions byte does not match (probed)")
+    dm = attempt(meta, "MessageDat by value", lambda: probe_dat_msg(sb), {"export": UNK, "parse": UNK, "len": 0})
+    out.append(f"def datMsgExport : List (DatFld × DatArg) := {lean_layout(dm['export'])}  -- MessageDat.export_payload() (payload of the EdgeLock v2 response), probed")
+    out.append(f"def datMsgParse : List (DatFld × DatArg) := {lean_layout(dm['parse'])}  -- MessageDat.parse_payload(), probed by offset")
+    out.append(f"def datMsgPayloadLen : Nat := {dm['len']}  -- len(export_payload()), also for an over-long challenge vector")
     cenv = ModuleEnv(ctree) if ctree else None
 
     def _class_const(_c, k):
@@ -1314,10 +1354,10 @@ def v2_section(sb, ns, out, meta):
             return cenv.cls("AhabCertificate").value(k)
         except (NotConst, AttributeError):
             return None
-    consts = {k: _class_const(cert, k) for k in ("PERMISSION_DATA_SIZE", "UUID_SIZE")}
+    consts = {k: _class_const(None, k) for k in ("PERMISSION_DATA_SIZE", "UUID_SIZE")}
     out.append(f"def certPermDataSize : Nat := {consts['PERMISSION_DATA_SIZE'] if isinstance(consts['PERMISSION_DATA_SIZE'], int) else 0}")
     out.append(f"def certUuidSize : Nat := {consts['UUID_SIZE'] if isinstance(consts['UUID_SIZE'], int) else 0}")
-    perm_oem = _class_const(cert, "PERM_OEM")
+    perm_oem = _class_const(None, "PERM_OEM")
     out.append(f"def certPermDebug : Nat := {perm_oem.get('debug', 0) if isinstance(perm_oem, dict) else 0}  -- PERM_OEM['debug']")
     # DebugCredentialEdgeLockEnclaveV2 (probed): what the wrapper does with the permission data of the certificate it is given
     def wrapper():
